@@ -25,15 +25,19 @@ from harness import core
 
 CTORS = ["if_", "loop", "scan", "sequence_map"]
 NODE_CLASSES = {"_If": "if_", "_Loop": "loop", "_Scan": "scan", "_SequenceMap": "sequence_map"}
-STEPS_FULL = ["build", "infer", "build", "valueProp", "to_onnx", "inspect", "copy", "pickle", "graphMethod",
+STEPS_FULL = ["build", "infer", "build_drop", "valueProp", "to_onnx", "inspect", "copy", "pickle", "graphMethod",
               "varMethod", "inline", "build"]
-MODEL_STEP = {"build": "build", "to_onnx": "build", "infer": "infer", "valueProp": "valueProp",
+MODEL_STEP = {"build": "build", "build_drop": "build", "to_onnx": "build", "infer": "infer", "valueProp": "valueProp",
               "inspect": "inspect", "copy": "copy", "pickle": "copy", "graphMethod": "graphMethod",
               "varMethod": "varMethod", "inline": "inline"}
 
 
 class _Boom(Exception):
     pass
+
+
+class _BoomBase(BaseException):
+    """a callback may also leave with a BaseException (KeyboardInterrupt-like): it must propagate unchanged"""
 
 
 # ----------------------------------------------------------------------------- type descriptors
@@ -69,6 +73,12 @@ EXTRA_TYPES = [
     T(I32, (None,)),
 ]
 SEQS = [{"seq": T(F32, (3,))}, {"seq": T(I64, None)}, {"seq": T(BOOL, (2, 2))}]
+SEQ_RANK0 = {"seq": T(F32, ())}  # elements of rank 0: `()` is a known shape, not an unknown one
+ZERO_LEN = [T(F32, (0,)), T(I64, (0, 2)), T(F32, (0, 0))]  # zero-length scan axes
+# how Loop's trip count / condition and If's condition are given: an argument, omitted, a constant
+LOOP_M = ["arg", "none", "const3", "const0"]
+LOOP_COND = [None, "constTrue", "constFalse"]
+IF_COND = ["arg", "constTrue", "constFalse"]
 
 
 class _Types:
@@ -127,7 +137,7 @@ class Env:
         dt = self.onnx.helper.tensor_dtype_to_np_dtype(d["t"])
         if d["t"] == 8:
             dt = self.np.dtype(str)
-        return ts.Tensor(dt.type, None if d["s"] is None else tuple(d["s"]))
+        return ts.Tensor(dt.type if d["t"] <= 16 else dt, None if d["s"] is None else tuple(d["s"]))
 
     def from_spox(self, t):
         ts = self.ts
@@ -356,9 +366,10 @@ def make_callback(env, op, ctor, case, role, rec, counters):
         counters[role] = counters.get(role, 0) + 1
         rec.append((role, args))
         if beh == "raises":
-            raise _Boom("callback raised")
+            raise (_BoomBase if variant % 2 else _Boom)("callback raised")
         if beh == "nonIterable":
-            return [None, 5, op.const(1.0), 2.5][variant % 4]
+            # (a 0-d array, bytes and a string are "iterable" for isinstance, but not iterables of Vars)
+            return [None, 5, op.const(1.0), 2.5, env.np.array(1.0), b"ab", "xy"][variant % 7]
         n = cb["n"]
         if beh == "hasNonVar":
             return malformed_result(env, op, ctor, case, cb, args)
@@ -374,11 +385,18 @@ def make_callback(env, op, ctor, case, role, rec, counters):
         if cont in ("dictkeys", "dict", "set"):
             uniq = []
             for v in vs:  # a dict / set would merge a Var that occurs twice
-                uniq.append(op.identity(v) if any(v is u for u in uniq) else v)
+                if any(v is u for u in uniq):
+                    try:
+                        v = op.identity(v)
+                    except Exception:  # noqa: BLE001 - no Identity for this type (nested sequences): plain list
+                        return vs
+                uniq.append(v)
             if cont == "set":
                 return set(uniq)
             d_ = {v: i for i, v in enumerate(uniq)}
             return d_ if cont == "dict" else d_.keys()
+        if cont in ONE_SHOT_MAKERS:
+            return ONE_SHOT_MAKERS[cont](list(vs))
         if cont == "ndarray":  # a numpy object array of Vars is an iterable of Vars
             arr = env.np.empty(len(vs), dtype=object)
             for i, v in enumerate(vs):
@@ -395,6 +413,57 @@ def make_callback(env, op, ctor, case, role, rec, counters):
         return vs
 
     return fun
+
+
+class _OneShot:
+    """An iterator object (its own iterator): can be walked exactly once."""
+
+    def __init__(self, xs):
+        self._xs, self._i = xs, 0
+
+    def __iter__(self):
+        return self
+
+    def __next__(self):
+        if self._i >= len(self._xs):
+            raise StopIteration
+        self._i += 1
+        return self._xs[self._i - 1]
+
+
+def _seqclass(xs):
+    import collections.abc
+
+    class Seq(collections.abc.Sequence):
+        def __getitem__(self, i):
+            return xs[i]
+
+        def __len__(self):
+            return len(xs)
+
+    return Seq()
+
+
+def _deque(xs):
+    import collections
+
+    return collections.deque(xs)
+
+
+# further iterables of Vars: one-shot iterators and non-list sequences (all must count their elements)
+ONE_SHOT_MAKERS = {
+    "iter": lambda xs: iter(xs),
+    "chain": lambda xs: itertools.chain(xs[:1], xs[1:]),
+    "oneshot": lambda xs: _OneShot(xs),
+    "reversed": lambda xs: reversed(xs[::-1]),
+    "zipstar": lambda xs: (t[0] for t in zip(xs, xs)),
+    "deque": _deque,
+    "dictvalues": lambda xs: {i: v for i, v in enumerate(xs)}.values(),
+    "seqclass": _seqclass,
+}
+CONTAINERS_MAIN = ["list", "list", "tuple", "gen", "map", "dictkeys", "iter", "oneshot", "chain"]
+CONTAINERS_ALL = ["list", "tuple", "gen", "map", "dictkeys"] + sorted(ONE_SHOT_MAKERS)
+ONE_SHOT = {"gen", "map", "iter", "chain", "oneshot", "reversed", "zipstar"}
 
 
 def concrete(d):
@@ -463,7 +532,20 @@ def run_real(env: Env, case, steps=()):
            "fresh": True, "unnamed": True, "steps": [], "step_errors": []}
     with warnings.catch_warnings():
         warnings.simplefilter("ignore")
-        operands = {k: [env.operand(d) for d in v] for k, v in case.get("lists", {}).items()}
+        if case.get("dupvar"):  # one Var object in every slot of its type
+            made = {}
+
+            def mk(d):
+                if d is None:
+                    return env.operand(d)
+                k_ = repr(d)
+                if k_ not in made:
+                    made[k_] = env.operand(d)
+                return made[k_]
+
+            operands = {k: [mk(d) for d in v] for k, v in case.get("lists", {}).items()}
+        else:
+            operands = {k: [env.operand(d) for d in v] for k, v in case.get("lists", {}).items()}
         singles = {k: env.operand(d) for k, v in case.get("singles", {}).items() for d in [v]}
     cbs = {role: make_callback(env, op, ctor, case, role, rec, counters) for role in case["cbs"]}
     if case.get("same_cb"):  # one callable object passed in both roles
@@ -471,12 +553,27 @@ def run_real(env: Env, case, steps=()):
     f = getattr(mod, ctor)
     env.spy = []
     outer = {}
+    consts = {}  # operands that are constants (not model inputs)
     if ctor == "if_":
-        outer["cond"] = env.spox.argument(env.ts.Tensor(np.bool_, ()))
+        ic = case.get("if_cond", "arg")
+        if ic == "arg":
+            outer["cond"] = env.spox.argument(env.ts.Tensor(np.bool_, ()))
+        else:  # a constant condition: one branch can never execute; both are still traced exactly once
+            consts["cond"] = op.const(np.array(ic == "constTrue"))
     elif ctor == "loop":
-        outer["M"] = env.spox.argument(env.ts.Tensor(np.int64, ()))
-        if case.get("cond") is not None:
-            outer["cond"] = env.operand(case["cond"])
+        mm = case.get("M", "arg")
+        if mm == "arg":
+            outer["M"] = env.spox.argument(env.ts.Tensor(np.int64, ()))
+        elif mm != "none":  # constant trip count (3, or 0: the body never executes)
+            consts["M"] = op.const(np.array(3 if mm == "const3" else 0, np.int64))
+        cc = case.get("cond")
+        if isinstance(cc, str):
+            consts["cond"] = op.const(np.array([cc == "constTrue"]))
+        elif cc is not None:
+            outer["cond"] = env.operand(cc)
+    if case.get("opcont") == "tuple":  # the operand lists as tuples (the parameters are `Sequence[Var]`)
+        operands = {k: tuple(v) for k, v in operands.items()}
+    given = dict(outer, **consts)
     env.cur_operands = list(operands.get("v_initial", [])) or list(operands.get("initial_state_and_scan_inputs", []))
     env.cur_operands = [v if v.type is not None else None for v in env.cur_operands]
     env.cur_shape_arg = None
@@ -494,9 +591,9 @@ def run_real(env: Env, case, steps=()):
             with warnings.catch_warnings(), amb:
                 warnings.simplefilter("ignore")
                 if ctor == "if_":
-                    outs = f(outer["cond"], then_branch=cbs["then_branch"], else_branch=cbs["else_branch"])
+                    outs = f(given["cond"], then_branch=cbs["then_branch"], else_branch=cbs["else_branch"])
                 elif ctor == "loop":
-                    outs = f(outer["M"], outer.get("cond"), v_initial=operands["v_initial"], body=cbs["body"])
+                    outs = f(given.get("M"), given.get("cond"), v_initial=operands["v_initial"], body=cbs["body"])
                 elif ctor == "scan":
                     outs = f(
                         operands["initial_state_and_scan_inputs"], body=cbs["body"],
@@ -507,7 +604,7 @@ def run_real(env: Env, case, steps=()):
                     outs = f(singles["input_sequence"], operands["additional_inputs"], body=cbs["body"])
             outs = list(outs)
             obs["result"] = ("ok", len(outs))
-        except Exception as e:  # noqa: BLE001
+        except (Exception, _BoomBase) as e:  # noqa: BLE001
             outs = None
             obs["result"] = ("err", type(e).__name__, str(e)[:160])
         delta = {r: counters.get(r, 0) - before.get(r, 0) for r in case["cbs"]}
@@ -577,6 +674,13 @@ def run_real(env: Env, case, steps=()):
                                 raise
                             # unknown shapes among the inputs / outputs: the non-concrete build
                             env.graph.results(**outd).with_arguments(*ins.values()).to_onnx_model(concrete=False)
+                    elif st == "build_drop" and outd:
+                        try:
+                            env.spox.build(ins, outd, drop_unused_inputs=True)
+                        except ValueError as e:
+                            if "does not specify the shape" not in str(e):
+                                raise
+                            env.graph.results(**outd).to_onnx_model(concrete=False)
                     elif st == "to_onnx" and outd:
                         env.graph.results(**outd).with_arguments(*ins.values()).to_onnx()
                     elif st == "infer" and node is not None:
@@ -621,7 +725,7 @@ def run_real(env: Env, case, steps=()):
                             again = env.spox.inline(mp)(**ins)
                             env.spox.build(ins, {k: v for k, v in again.items()})
             except Exception as e:  # noqa: BLE001
-                obs["step_errors"].append((st, type(e).__name__))
+                obs["step_errors"].append((st, type(e).__name__, str(e)[:200]))
             obs["steps"].append((st, {r: counters.get(r, 0) - before.get(r, 0) for r in case["cbs"]}))
     obs["counts"] = dict(counters)
     return obs
@@ -777,7 +881,7 @@ def judge(case, obs):
         want_n = case["cbs"][src]["n"] - (1 if ctor == "loop" else 0)
         got_n = [ov for cls, ov in obs["spy"] if NODE_CLASSES.get(cls) == ctor]
         cont = case["cbs"][src].get("container", "list")
-        tag = ":one-shot-iterable" if cont in ("gen", "map") else ""
+        tag = ":one-shot-iterable" if cont in ONE_SHOT else ""
         if got_n and isinstance(got_n[-1], int) and got_n[-1] != want_n:
             bad.append((f"{ctor}:out-count{tag}", f"callback returned {case['cbs'][src]['n']} Vars, node created with out_variadic={got_n[-1]} (expected {want_n})"))
         elif res[0] == "ok" and res[1] != want_n:
@@ -842,7 +946,7 @@ def compare(case, obs, m, steps):
     res, mr = obs["result"], m["result"]
     if "err" in mr:
         want = {"TypeError": "TypeError", "AttributeError": "AttributeError", "Other": "_Boom"}[mr["err"]]
-        if not (res[0] == "err" and res[1] == want and obs["stage"] == "pre"):
+        if not (res[0] == "err" and (res[1] == want or (want == "_Boom" and res[1] == "_BoomBase")) and obs["stage"] == "pre"):
             return f"model raises {mr['err']}, real: {res} at stage {obs['stage']}"
     else:
         if obs["stage"] == "pre":
@@ -902,9 +1006,24 @@ def finish_case(case, rng, container=None):
         case["scan_attrs"] = attrs
     if "ambient" not in case:
         case["ambient"] = rng.choice(AMBIENTS[1:]) if rng.random() < 0.35 else None
+    # trip count / condition: an argument, omitted, or a constant (incl. bodies that can never execute)
+    if ctor == "loop" and "M" not in case and rng.random() < 0.3:
+        case["M"] = rng.choice(LOOP_M[1:])
+    if ctor == "loop" and "cond" not in case and rng.random() < 0.2:
+        case["cond"] = rng.choice(LOOP_COND[1:])
+    if ctor == "loop" and case.get("M") == "none" and not case["lists"]["v_initial"]:
+        # no trip count and no operand at all: a program without inputs that never terminates — value
+        # propagation (e.g. of the inlined model) would evaluate it forever; give it a trip count
+        case["M"] = "const3"
+    if ctor == "if_" and "if_cond" not in case and rng.random() < 0.4:
+        case["if_cond"] = rng.choice(IF_COND[1:])
+    if ctor != "if_" and "opcont" not in case and rng.random() < 0.2:
+        case["opcont"] = "tuple"
+    if ctor != "if_" and "dupvar" not in case and rng.random() < 0.15:
+        case["dupvar"] = True
     if ctor != "if_" and "rel" not in case:
         case["rel"] = rng.choice(RELATIONS) if rng.random() < 0.6 else "same"
-    cont = container or rng.choice(["list", "list", "tuple", "gen", "map", "dictkeys"])
+    cont = container or rng.choice(CONTAINERS_MAIN)
     if ctor == "if_":
         n = case.get("n_if", 1)
         case["cbs"] = {"else_branch": good_cb(n, cont, n), "then_branch": good_cb(n, cont, n)}
@@ -941,6 +1060,29 @@ def fallback_resolves():
     return res
 
 
+_DTYPES = None
+
+
+def all_dtypes():
+    """ONNX element type numbers the installed onnx + spox can express as a Tensor type."""
+    global _DTYPES
+    if _DTYPES is None:
+        import onnx
+        import spox
+
+        _DTYPES = []
+        for num in range(1, 64):
+            try:
+                onnx.TensorProto.DataType.Name(num)
+                dt = onnx.helper.tensor_dtype_to_np_dtype(num)
+                t = spox.Tensor(dt if num > 16 else (str if num == 8 else dt.type), (2,))
+                if int(onnx.helper.np_dtype_to_tensor_dtype(t.dtype)) == num or num == 8:
+                    _DTYPES.append(num)
+            except Exception:  # noqa: BLE001
+                continue
+    return _DTYPES
+
+
 def gen_cases(ck, info):
     rng = ck.rng
     defs, _ = defining_modules(info)
@@ -949,7 +1091,7 @@ def gen_cases(ck, info):
     maxlen_exh = 3  # Loop, SequenceMap
     maxlen_loop = ck.pick(3, 4)
     maxlen_scan = ck.pick(2, 3)
-    longer = ck.pick(0, 1500)  # seeded lists of length 4-5 over the larger type pool (thorough)
+    longer = ck.pick(0, 900)  # seeded lists of length 4-5 over the larger type pool (thorough)
     pool_x = POOL + EXTRA_TYPES
     tensors_x = TENSORS + [d for d in EXTRA_TYPES if "t" in d]
     if ck.thorough:  # every shipped module, also the ones that only re-export the constructor
@@ -968,9 +1110,15 @@ def gen_cases(ck, info):
 
     pool_u = POOL + [None]
     # ---- Loop: carried values of every kind
-    for mod in defs.get("loop", []):
-        for car in lists_upto(POOL, maxlen_loop if mod in defs0.get("loop", []) else 2):
+    for k_mod, mod in enumerate(defs.get("loop", [])):
+        # exhaustive to the full length in the first defining module; the other modules (same accepted spec by
+        # `generated_good`): exhaustive to length 2 plus seeded lists of the full length (quick tier)
+        full = ck.thorough or k_mod == 0
+        for car in lists_upto(POOL, (maxlen_loop if full else 2) if mod in defs0.get("loop", []) else 2):
             cases.append(finish_case({"mod": mod, "ctor": "loop", "lists": {"v_initial": car}}, rng))
+        if not full:
+            for _ in range(200):
+                cases.append(finish_case({"mod": mod, "ctor": "loop", "lists": {"v_initial": rand_list(POOL, maxlen_loop)}}, rng))
         for _ in range(ck.pick(60, 300)):
             cases.append(finish_case({"mod": mod, "ctor": "loop", "lists": {"v_initial": rand_list(pool_u, 3)}}, rng))
         for _ in range(longer):
@@ -1013,10 +1161,15 @@ def gen_cases(ck, info):
                                       "ints": {"num_scan_inputs": rng.randrange(0, len(ops) + 1)}, "axes": None}, rng))
     # ---- SequenceMap
     for mod in defs.get("sequence_map", []):
-        for s in SEQS:
-            for ex in lists_upto(TENSORS + SEQS, maxlen_exh if mod in defs0.get("sequence_map", []) else 2):
+        for k_s, s in enumerate(SEQS):
+            full = ck.thorough or k_s == 0  # the extras are typed independently of the input sequence
+            for ex in lists_upto(TENSORS + SEQS, (maxlen_exh if full else 2) if mod in defs0.get("sequence_map", []) else 2):
                 cases.append(finish_case({"mod": mod, "ctor": "sequence_map", "singles": {"input_sequence": s},
                                           "lists": {"additional_inputs": ex}}, rng))
+            if not full:
+                for _ in range(150):
+                    cases.append(finish_case({"mod": mod, "ctor": "sequence_map", "singles": {"input_sequence": s},
+                                              "lists": {"additional_inputs": rand_list(TENSORS + SEQS, maxlen_exh)}}, rng))
         for _ in range(longer):
             cases.append(finish_case({"mod": mod, "ctor": "sequence_map", "singles": {"input_sequence": rng.choice(SEQS)},
                                       "lists": {"additional_inputs": rand_list(tensors_x + SEQS + [{"seq": T(8, (2,))}], rng.randrange(4, 6))}}, rng))
@@ -1027,13 +1180,67 @@ def gen_cases(ck, info):
     # ---- If
     for mod in defs.get("if_", []):
         for n in range(0, 4):
-            for cont in ["list", "tuple", "gen", "map", "dictkeys"]:
+            for cont in CONTAINERS_ALL:
                 cases.append(finish_case({"mod": mod, "ctor": "if_", "n_if": n}, rng, cont))
+    # ---- every shipped module (also the ones that only re-export a constructor): short operand lists,
+    #      trip count / condition given as argument / omitted / constant, zero-length scan axes, rank-0 elements
+    allmods = {}
+    for m_, c_, _d in info["resolves"]:
+        allmods.setdefault(c_, [])
+        if m_ not in allmods[c_]:
+            allmods[c_].append(m_)
+    for mod in allmods.get("loop", []):
+        light = mod not in defs.get("loop", [])
+        if light:
+            for car in lists_upto(POOL, 1):
+                cases.append(finish_case({"mod": mod, "ctor": "loop", "lists": {"v_initial": car}}, rng))
+            for _ in range(8):
+                cases.append(finish_case({"mod": mod, "ctor": "loop", "lists": {"v_initial": rand_list(pool_u, rng.randrange(2, 4))}}, rng))
+        for mm in LOOP_M:
+            for cc in LOOP_COND + [T(BOOL, (1,))]:
+                car = rand_list(POOL, rng.randrange(0, 3))
+                cases.append(finish_case({"mod": mod, "ctor": "loop", "lists": {"v_initial": car}, "M": mm, "cond": cc}, rng))
+    for mod in allmods.get("scan", []):
+        light = mod not in defs.get("scan", [])
+        lists_ = [[z] for z in ZERO_LEN] + [[T(F32, (3,)), z] for z in ZERO_LEN] + [[ZERO_LEN[0], ZERO_LEN[1]], [ZERO_LEN[2], T(I64, ()), ZERO_LEN[0]]]
+        if light:
+            lists_ += list(lists_upto(TENSORS, 1)) + [rand_list(TENSORS, rng.randrange(2, 4)) for _ in range(6)]
+        for ops in lists_:
+            for m in range(0, len(ops) + 1):
+                cases.append(finish_case({"mod": mod, "ctor": "scan", "lists": {"initial_state_and_scan_inputs": ops},
+                                          "ints": {"num_scan_inputs": m}, "axes": None}, rng))
+                if m >= 1 and all(d["s"] is not None and len(d["s"]) >= 1 for d in ops[len(ops) - m:]):
+                    cases.append(finish_case({"mod": mod, "ctor": "scan", "lists": {"initial_state_and_scan_inputs": ops},
+                                              "ints": {"num_scan_inputs": m}, "axes": [0] * m}, rng))
+    for mod in allmods.get("sequence_map", []):
+        light = mod not in defs.get("sequence_map", [])
+        ins_ = [SEQ_RANK0] + (SEQS if light else [])
+        for s_ in ins_:
+            for ex in list(lists_upto(TENSORS + SEQS + [SEQ_RANK0], 1)) + [rand_list(TENSORS + SEQS + [SEQ_RANK0], rng.randrange(2, 4)) for _ in range(8)]:
+                cases.append(finish_case({"mod": mod, "ctor": "sequence_map", "singles": {"input_sequence": s_},
+                                          "lists": {"additional_inputs": ex}}, rng))
+    for mod in allmods.get("if_", []):
+        light = mod not in defs.get("if_", [])
+        for ic in IF_COND:
+            for n in range(0, 3):
+                if light or ic != "arg":
+                    cases.append(finish_case({"mod": mod, "ctor": "if_", "n_if": n, "if_cond": ic}, rng))
+    # ---- every element type the installed onnx defines (pass-through positions must keep the dtype)
+    for dt in all_dtypes():
+        t1, t2 = T(dt, (2,)), T(dt, (2, 3))
+        for mod in defs.get("loop", []):
+            cases.append(finish_case({"mod": mod, "ctor": "loop", "lists": {"v_initial": [t1, {"seq": t2}]}, "rel": "same", "k_extra": 0}, rng))
+        for mod in defs.get("scan", []):
+            cases.append(finish_case({"mod": mod, "ctor": "scan", "lists": {"initial_state_and_scan_inputs": [t1, t2]},
+                                      "ints": {"num_scan_inputs": 1}, "axes": None, "rel": "same", "k_extra": 0}, rng))
+        for mod in defs.get("sequence_map", []):
+            cases.append(finish_case({"mod": mod, "ctor": "sequence_map", "singles": {"input_sequence": {"seq": t1}},
+                                      "lists": {"additional_inputs": [t2, {"seq": t2}]}, "rel": "same", "k_extra": 0}, rng))
     # ---- every container kind at least once per constructor
     base = [c for c in cases if c["ctor"] != "if_" and prescription(c) is not None][:]
-    for mod_ctor in {(c["mod"], c["ctor"]) for c in base}:
+    for mod_ctor in sorted({(c["mod"], c["ctor"]) for c in base}):
         sub = [c for c in base if (c["mod"], c["ctor"]) == mod_ctor and natural_count(c["ctor"], c) >= 2][:40]
-        for cont in ["list", "tuple", "gen", "map", "dictkeys"]:
+        for cont in CONTAINERS_ALL:
             if sub:
                 c = dict(rng.choice(sub))
                 c["cbs"] = {"body": dict(c["cbs"]["body"], container=cont)}
@@ -1042,20 +1249,20 @@ def gen_cases(ck, info):
     dts = [F32, I64, I32, F64, BOOL]
     many_tensors = [T(dts[i % 5], (i + 1,) if i % 3 else (i + 1, 2)) for i in range(14)]
     many_mixed = [({"seq": t} if i % 4 == 1 else ({"opt": t} if i % 4 == 3 else t)) for i, t in enumerate(many_tensors)]
-    for mod in defs.get("loop", []):
+    for mod in allmods.get("loop", []):
         for n_ in ck.pick([9, 11, 13], [9, 10, 11, 12, 13, 14]):
             for pool_ in (many_tensors, many_mixed):
                 car = list(pool_[:n_])
                 rng.shuffle(car)
                 cases.append(finish_case({"mod": mod, "ctor": "loop", "lists": {"v_initial": car}, "k_extra": 0}, rng))
-    for mod in defs.get("scan", []):
+    for mod in allmods.get("scan", []):
         for n_ in ck.pick([11, 13], [10, 11, 12, 13, 14]):
             ops = list(many_tensors[:n_])
             rng.shuffle(ops)
             for m_ in sorted({0, 1, n_ // 2, n_ - 1, n_}):
                 cases.append(finish_case({"mod": mod, "ctor": "scan", "lists": {"initial_state_and_scan_inputs": ops},
                                           "ints": {"num_scan_inputs": m_}, "axes": None, "k_extra": 1}, rng))
-    for mod in defs.get("sequence_map", []):
+    for mod in allmods.get("sequence_map", []):
         for n_ in ck.pick([10, 12], [9, 10, 11, 12, 13]):
             ex = [({"seq": t} if i % 2 else t) for i, t in enumerate(many_tensors[:n_])]
             rng.shuffle(ex)
@@ -1076,7 +1283,7 @@ def gen_cases(ck, info):
                 cases.append(c)
     # ---- malformed callbacks and unnatural result counts
     base = [c for c in cases if prescription(c) is not None and not c.get("same_cb")]
-    for _ in range(ck.pick(240, 2000)):
+    for _ in range(ck.pick(480 if getattr(ck, "c19_escalated", False) else 240, 1500)):
         c = dict(rng.choice(base))
         roles = list(c["cbs"])
         cbs = {r: dict(c["cbs"][r]) for r in roles}
@@ -1087,7 +1294,7 @@ def gen_cases(ck, info):
             for r2 in roles:
                 cbs[r2]["n"] = n
         else:
-            cbs[r] = {"beh": kind, "n": rng.randrange(1, 4), "variant": rng.randrange(4)}
+            cbs[r] = {"beh": kind, "n": rng.randrange(1, 4), "variant": rng.randrange(7)}
             if kind == "hasNonVar":
                 cbs[r].update(bad=rng.choice(BAD_ELEMS), pos=rng.randrange(3), outer=rng.choice(["list", "tuple", "gen"]))
         c["cbs"] = cbs
@@ -1121,7 +1328,7 @@ def gen_cases(ck, info):
                 c["cbs"] = cbs
                 c["ambient"] = amb
                 cases.append(c)
-            for variant in range(4):  # bare scalars / None / a single Var as the whole result
+            for variant in range(7):  # bare scalars / None / a single Var / 0-d array / bytes / str as the whole result
                 c = dict(rng.choice(sub))
                 roles = list(c["cbs"])
                 cbs = {r2: dict(c["cbs"][r2]) for r2 in roles}
@@ -1140,7 +1347,9 @@ def gen_cases(ck, info):
 
 # ----------------------------------------------------------------------------- onnxruntime programs
 ORT_PROGS = ["loop_uses_args", "scan_rank1_state", "scan_reverse_out_axis", "scan_rank2_state_two_scans", "scan_two_states",
-             "seqmap_tensor_extra", "seqmap_seq_extra", "if_no_args"]
+             "seqmap_tensor_extra", "seqmap_seq_extra", "if_no_args",
+             # >= 11 arguments AND >= 11 results, pairwise different: result i must end up at output i
+             "loop_many_results", "scan_many_results", "if_many_results"]
 
 
 def run_ort_prog(env: Env, mod_name, prog, seed):
@@ -1183,6 +1392,72 @@ def run_ort_prog(env: Env, mod_name, prog, seed):
                     vs = vs + np.float32(it)
                     av = av + np.float32(it)
                 expect = [vs, av, np.stack(scs)]
+            elif prog == "loop_many_results":
+                k = int(rng.integers(11, 14))
+                xs = [arg(Tn(np.float32, (j + 1,))) for j in range(k)]
+                M = arg(Tn(np.int64, ()))
+
+                def body(i, c, *vs):
+                    calls.append(1)
+                    return [c] + [op.add(v, op.const(np.float32(j + 1))) for j, v in enumerate(vs)] + [op.mul(vs[0], op.const(np.float32(2)))]
+
+                res = op.loop(M, v_initial=xs, body=body)
+                fin = [op.reshape(v, op.const(np.array([j + 1], np.int64))) for j, v in enumerate(res[:k])]
+                sc = op.reshape(res[k], op.const(np.array([-1, 1], np.int64)))
+                ins = {f"x{j}": x for j, x in enumerate(xs)}
+                ins["M"] = M
+                outs = {f"v{j}": v for j, v in enumerate(fin)}
+                outs["sc"] = sc
+                m = int(rng.integers(1, 4))
+                xv = [rng.standard_normal(j + 1).astype(np.float32) for j in range(k)]
+                feeds = {f"x{j}": v for j, v in enumerate(xv)}
+                feeds["M"] = np.array(m, np.int64)
+                expect = [v + np.float32(m * (j + 1)) for j, v in enumerate(xv)]
+                expect.append(np.stack([(xv[0] + np.float32(it)) * 2 for it in range(m)]))
+            elif prog == "scan_many_results":
+                k = int(rng.integers(11, 14))
+                t = int(rng.integers(1, 4))
+                sts = [arg(Tn(np.float32, (j % 3 + 1,))) for j in range(k)]
+                xs = arg(Tn(np.float32, (t,)))
+
+                def body(*a):
+                    calls.append(1)
+                    x = a[-1]
+                    return [op.add(s_, op.mul(x, op.const(np.float32(j + 1)))) for j, s_ in enumerate(a[:-1])] + [op.neg(x)]
+
+                res = op.scan(sts + [xs], body=body, num_scan_inputs=1)
+                ins = {f"s{j}": v for j, v in enumerate(sts)}
+                ins["xs"] = xs
+                outs = {f"f{j}": v for j, v in enumerate(res)}
+                sv = [rng.standard_normal(j % 3 + 1).astype(np.float32) for j in range(k)]
+                xv = rng.standard_normal(t).astype(np.float32)
+                feeds = {f"s{j}": v for j, v in enumerate(sv)}
+                feeds["xs"] = xv
+                expect = []
+                for j, v in enumerate(sv):
+                    cur = v.copy()
+                    for it in range(t):
+                        cur = cur + xv[it] * np.float32(j + 1)
+                    expect.append(cur)
+                expect.append(-xv)
+            elif prog == "if_many_results":
+                k = int(rng.integers(11, 14))
+                x = arg(Tn(np.float32, (2,)))
+                b = arg(Tn(np.bool_, ()))
+
+                def then_b():
+                    calls.append(1)
+                    return (op.add(x, op.const(np.float32(j))) for j in range(k))
+
+                def else_b():
+                    calls.append(1)
+                    return [op.sub(x, op.const(np.float32(j))) for j in range(k)]
+
+                res = op.if_(b, then_branch=then_b, else_branch=else_b)
+                xv = rng.standard_normal(2).astype(np.float32)
+                bv = bool(rng.integers(0, 2))
+                ins, outs, feeds = {"x": x, "b": b}, {f"o{j}": v for j, v in enumerate(res)}, {"x": xv, "b": np.array(bv)}
+                expect = [xv + np.float32(j) if bv else xv - np.float32(j) for j in range(k)]
             elif prog == "scan_reverse_out_axis":
                 # input scanned in reverse, scan output stacked along axis 1: body argument types unchanged
                 t = int(rng.integers(2, 5))
@@ -1329,7 +1604,240 @@ def run_ort_prog(env: Env, mod_name, prog, seed):
 
 
 def prog_ctor(prog):
-    return {"loop": "loop", "scan": "scan", "seqm": "sequence_map", "if_n": "if_"}[prog[:4]]
+    return {"loop": "loop", "scan": "scan", "seqm": "sequence_map", "if_n": "if_", "if_m": "if_"}[prog[:4]]
+
+
+# ----------------------------------------------------------------------------- subgraph(types, fun) called directly
+DIRECT_OK = ["list", "tuple", "gen", "iter", "map", "dictkeys", "oneshot"]
+DIRECT_BAD = {"none": "notIterable", "int": "notIterable", "type": "notIterable", "listNonType": "hasNonType",
+              "str": "hasNonType", "listWithNone": "hasNonType", "genWithInt": "hasNonType"}
+
+
+def direct_cases(ck):
+    rng = ck.rng
+    lists = [[], [T(F32, (2,))], [T(F32, ()), {"seq": T(I64, (2,))}, {"opt": T(F32, (2,))}],
+             [T([F32, I64, I32, F64, BOOL][i % 5], (i + 1,)) for i in range(12)]]
+    cbs = [{"beh": "vars", "n": 2, "container": "list"}, {"beh": "vars", "n": 1, "container": "gen"},
+           {"beh": "vars", "n": 0, "container": "tuple"}, {"beh": "nonIterable", "n": 1, "variant": 1},
+           {"beh": "hasNonVar", "n": 2, "bad": "int", "pos": 1}, {"beh": "hasNonVar", "n": 3, "bad": "listOfVars", "pos": 0},
+           {"beh": "notCallable", "n": 0, "variant": 2}, {"beh": "raises", "n": 1}]
+    out = []
+    for cont in DIRECT_OK:
+        for tys in lists:
+            for cb in cbs:
+                out.append({"kind": "direct", "types": cont, "tys": tys, "cb": dict(cb)})
+    for bad in DIRECT_BAD:
+        for cb in (cbs[0], cbs[6]):
+            out.append({"kind": "direct", "types": bad, "tys": [T(F32, (2,))], "cb": dict(cb)})
+    for _ in range(ck.pick(30, 300)):
+        tys = [rng.choice(POOL + EXTRA_TYPES) for _ in range(rng.randrange(0, 6))]
+        out.append({"kind": "direct", "types": rng.choice(DIRECT_OK), "tys": tys, "cb": dict(rng.choice(cbs))})
+    return out
+
+
+def run_direct_case(env: Env, case):
+    """-> observation of one direct `subgraph(types, fun)` call (op = the first opset module)."""
+    op = env.mods[sorted(env.mods, key=lambda q: int(q[1:]))[0]]
+    sub = env.graph.subgraph
+    ts = [env.to_spox(d) for d in case["tys"]]
+    kind = case["types"]
+    if kind in DIRECT_OK:
+        obj = {"list": list, "tuple": tuple, "gen": lambda x: (t for t in x), "iter": iter, "map": lambda x: map(lambda t: t, x),
+               "dictkeys": lambda x: {t: 0 for t in x}.keys(), "oneshot": _OneShot}[kind](ts)
+        if kind == "dictkeys" and len(set(ts)) != len(ts):
+            obj = list(ts)
+    else:
+        obj = {"none": None, "int": 3, "type": ts[0], "listNonType": [1, 2], "str": "ab", "listWithNone": [ts[0], None],
+               "genWithInt": (x for x in [ts[0], 7])}[kind]
+    rec, counters = [], {}
+    fake = {"ctor": "loop", "cbs": {"body": case["cb"]}, "lists": {"v_initial": []}, "k_extra": 0, "rel": "same"}
+    fun = make_callback(env, op, "loop", fake, "body", rec, counters)
+    if case["cb"]["beh"] in ("vars", "hasNonVar"):
+        n = case["cb"]["n"]
+        inner = fun
+
+        def fun(*args):  # results unrelated to Loop's conventions: n constants (or the malformed list)
+            counters["body"] = counters.get("body", 0) + 1
+            rec.append(("body", args))
+            vs = [op.const(float(i)) for i in range(max(n, 3))]
+            if case["cb"]["beh"] == "hasNonVar":
+                vs = vs[:n]
+                vs[case["cb"]["pos"] % n] = 3 if case["cb"]["bad"] == "int" else [op.const(1.0), op.const(2.0)]
+                return vs
+            vs = vs[:n]
+            cont = case["cb"].get("container", "list")
+            return tuple(vs) if cont == "tuple" else ((v for v in vs) if cont == "gen" else vs)
+
+        del inner
+    obs = {"events": [], "fresh": True, "unnamed": True}
+    try:
+        with warnings.catch_warnings():
+            warnings.simplefilter("ignore")
+            g = sub(obj, fun)
+        obs["result"] = ("ok", len(g.requested_results), len(g.requested_arguments or ()))
+    except (Exception, _BoomBase) as e:  # noqa: BLE001
+        obs["result"] = ("err", type(e).__name__, str(e)[:160])
+    for _role, args in rec:
+        obs["events"].append([env.from_spox(a.type) if isinstance(a, env.Var) else "non-var" for a in args])
+        for a in args:
+            if id(a) in env.seen_ids:
+                obs["fresh"] = False
+            env.seen_ids.add(id(a))
+            env.seen_vars.append(a)
+            if getattr(a, "_name", None) is not None:
+                obs["unnamed"] = False
+        if len({id(a) for a in args}) != len(args):
+            obs["fresh"] = False
+    obs["count"] = counters.get("body", 0)
+    return obs
+
+
+def judge_direct(case, obs):
+    """Model-free: the callback is invoked once with exactly the arguments `types` prescribes."""
+    bad = []
+    beh = case["cb"]["beh"]
+    res = obs["result"]
+    if case["types"] not in DIRECT_OK:
+        return bad  # malformed `types`: nothing is prescribed for the callback (model correspondence only)
+    want = case["tys"]
+    if obs["count"] > 1 or (beh != "notCallable" and obs["count"] != 1):
+        bad.append((f"subgraph:direct:count={obs['count']}", f"subgraph(types, fun) invoked fun {obs['count']} times"))
+    for types in obs["events"]:
+        if len(types) != len(want):
+            bad.append(("subgraph:direct:nargs", f"subgraph(<{case['types']} of {len(want)} types>, fun) called fun with {len(types)} arguments"))
+        elif types != want:
+            bad.append(("subgraph:direct:type", f"subgraph called fun with arguments typed {types}, types given: {want}"))
+    if not obs["fresh"]:
+        bad.append(("subgraph:direct:args:not-fresh", "an argument of a direct subgraph() call is not a fresh Var"))
+    if not obs["unnamed"]:
+        bad.append(("subgraph:direct:args:named", "an argument of a direct subgraph() call carries a name"))
+    if beh == "vars" and res[0] == "ok" and res[1] != case["cb"]["n"]:
+        bad.append(("subgraph:direct:out-count", f"callback returned {case['cb']['n']} Vars, the subgraph has {res[1]} results"))
+    if beh in ("notCallable", "nonIterable", "hasNonVar") and not (res[0] == "err" and res[1] == "TypeError"):
+        bad.append((f"subgraph:direct:bad-callback:{beh}:{res[1] if res[0] == 'err' else 'no exception'}",
+                    f"{beh} callback: expected TypeError, got {res[:2]}"))
+    return bad
+
+
+def direct_request(case):
+    kind = "ok" if case["types"] in DIRECT_OK else DIRECT_BAD[case["types"]]
+    cb = {"id": 0, "beh": case["cb"]["beh"], "n": case["cb"].get("n", 0)}
+    return {"direct": {"types": kind, "tys": case["tys"] if kind == "ok" else [], "cb": cb}}
+
+
+def compare_direct(case, obs, m):
+    if m is None or "error" in m:
+        return f"model error: {m}"
+    if [e["types"] for e in m["events"]] != obs["events"]:
+        return f"events differ: real={obs['events']} model={[e['types'] for e in m['events']]}"
+    res, mr = obs["result"], m["result"]
+    if "err" in mr:
+        want = {"TypeError": "TypeError", "AttributeError": "AttributeError", "Other": "_Boom"}[mr["err"]]
+        if not (res[0] == "err" and (res[1] == want or (want == "_Boom" and res[1] == "_BoomBase"))):
+            return f"model raises {mr['err']}, real: {res}"
+    elif not (res[0] == "ok" and res[1] == mr["ok"] and res[2] == mr["nargs"]):
+        return f"model: {mr}, real: {res}"
+    if obs["count"] != m["count"]:
+        return f"invocations: real={obs['count']} model={m['count']}"
+    return None
+
+
+def run_direct(ck: core.Check, env: Env):
+    stats = {"cases": 0, "mismatches": 0, "results": {}}
+    if getattr(env.graph, "subgraph", None) is None:
+        ck.broken("correspondence", "C19 facet of spox not observable", "spox._graph.subgraph (direct entry point) not found")
+        return stats
+    cases = direct_cases(ck)
+    try:
+        models = ck.driver().ask_many("C19", [direct_request(c) for c in cases])
+    except Exception as e:  # noqa: BLE001
+        ck.broken("correspondence", "C19 driver (direct)", str(e))
+        models = []
+    if len(models) != len(cases):
+        models = [None] * len(cases)
+    for case, m in zip(cases, models):
+        try:
+            obs = run_direct_case(env, case)
+        except Exception as e:  # noqa: BLE001
+            if stats["cases"] == 0:
+                ck.broken("correspondence", "C19 direct subgraph() case not observable", f"{type(e).__name__}: {e}\n{core.fmt_exc()[-500:]}")
+            continue
+        stats["cases"] += 1
+        k = obs["result"][0] if obs["result"][0] == "ok" else obs["result"][1]
+        stats["results"][k] = stats["results"].get(k, 0) + 1
+        ck.count(("direct", case["types"], repr(case["tys"]), repr(sorted(case["cb"].items()))))
+        for key, what in judge_direct(case, obs):
+            ck.failure(key, what, {"kind": "direct", "case": case})
+        if m is not None:
+            d = compare_direct(case, obs, m)
+            if d:
+                stats["mismatches"] += 1
+                if stats["mismatches"] <= 3:
+                    ck.broken("correspondence", "C19 model-vs-implementation (direct subgraph())", f"case={case} :: {d}")
+    ck.cov["direct_subgraph"] = stats
+    return stats
+
+
+# ----------------------------------------------------------------------------- nested control flow
+def run_nested(ck: core.Check, env: Env):
+    import sys
+
+    from harness import lib_c19nest as nest
+
+    P = sys.modules[__name__]
+    rng = ck.rng
+    mods = [m for m in sorted(env.mods, key=lambda q: int(q[1:])) if all(hasattr(env.mods[m], c) for c in CTORS)]
+    stats = {"programs": 0, "constructed": 0, "rejected": {}, "depth": {}, "bodies": 0, "step_errors": {}, "mismatches": 0,
+             "pairs": {}, "unobservable": {}}
+    if not mods:
+        return stats
+    esc = getattr(ck, "c19_escalated", False)
+    progs = nest.gen_programs(rng, P, mods, ck.pick(150 if esc else 45, 400), ck.pick(50 if esc else 15, 150))
+    try:
+        models = ck.driver().ask_many("C19", [nest.model_request(p_, nest.STEPS) for p_ in progs])
+    except Exception as e:  # noqa: BLE001
+        ck.broken("correspondence", "C19 driver (nested)", str(e))
+        models = [None] * len(progs)
+    if len(models) != len(progs):
+        ck.broken("correspondence", "C19 driver (nested)", f"{len(models)} answers for {len(progs)} requests")
+        models = [None] * len(progs)
+    for prog, m in zip(progs, models):
+        try:
+            obs = nest.run_program(env, prog)
+        except Exception as e:  # noqa: BLE001
+            sig = f"{type(e).__name__}: {str(e)[:120]}"
+            stats["unobservable"][sig] = stats["unobservable"].get(sig, 0) + 1
+            if stats["unobservable"][sig] == 1 and len(stats["unobservable"]) <= 3:
+                ck.broken("correspondence", "C19 nested program not observable", f"{sig}\n{core.fmt_exc()[-600:]}")
+            continue
+        bodies = list(nest.all_bodies(prog["call"]))
+        depth = max(d for *_x, d, _p in bodies)
+        ck.count(("nested", prog["mod"], repr(nest.model_call(prog["call"]))))
+        stats["programs"] += 1
+        stats["bodies"] += len(bodies)
+        stats["depth"][depth] = stats["depth"].get(depth, 0) + 1
+        for b, call, role, d, parent in bodies:
+            if parent is not None:
+                pc = next(c for bb, c, *_r in bodies if bb["id"] == parent)
+                k = f"{pc['ctor']}>{call['ctor']}"
+                stats["pairs"][k] = stats["pairs"].get(k, 0) + 1
+        if obs["result"][0] == "ok":
+            stats["constructed"] += 1
+        else:
+            k = f"{prog['call']['ctor']}:{obs['result'][1]}"
+            stats["rejected"][k] = stats["rejected"].get(k, 0) + 1
+        for st, en, _msg in obs["step_errors"]:
+            stats["step_errors"][f"{st}:{en}"] = stats["step_errors"].get(f"{st}:{en}", 0) + 1
+        for k, what in nest.judge(P, prog, obs):
+            ck.failure(k, what, {"kind": "nested", "prog": prog})
+        if m is not None:
+            d_ = nest.compare(prog, obs, m, nest.STEPS)
+            if d_:
+                stats["mismatches"] += 1
+                if stats["mismatches"] <= 3:
+                    ck.broken("correspondence", "C19 model-vs-implementation (nested)", f"mod={prog['mod']} call={nest.model_call(prog['call'])} :: {d_}")
+    ck.cov["nested"] = stats
+    return stats
 
 
 # ----------------------------------------------------------------------------- run
@@ -1365,6 +1873,21 @@ def run(ck: core.Check):
             ck.broken("callgraph", f"stored callback reachable: {sink}", " -> ".join(path))
     except Exception as e:  # noqa: BLE001
         ck.broken("translator", "C19 call graph extraction", f"{type(e).__name__}: {e}\n{core.fmt_exc()}")
+    # change-triggered escalation (tie G): normalised-AST hashes of the covered functions vs the validated tree
+    try:
+        from harness import lib_c19_sources
+
+        _cur, diff = lib_c19_sources.changed()
+    except Exception as e:  # noqa: BLE001
+        diff = [f"<hash extraction failed: {type(e).__name__}>"]
+    ck.c19_escalated = bool(diff)
+    ck.cov["source_changes_vs_validated_tree"] = diff[:60]
+    if diff:
+        ck.log(f"covered sources differ from the validated tree ({len(diff)} entries, e.g. {diff[:3]}): larger counts")
+    inv = info.get("inventory", {})
+    for p in inv.get("problems", []):
+        ck.broken("translator", "C19 constructor inventory", p)
+    ck.cov["constructor_inventory"] = {"callable_params": inv.get("callableParams"), "attr_wiring": inv.get("attrWiring")}
     ck.cov["generated_specs"] = {f"{m}.{c}": s["subgraphs"] for m, f in info["modules"].items() for c, s in f.items()}
     ck.cov["callback_sites"] = info["sites"]
     ck.lean(["SpoxModel.Props.C19"], audit="SpoxModel.Audit.C19")
@@ -1392,7 +1915,7 @@ def _run(ck: core.Check, env: Env, info):
     info = dict(info, resolves=resolves)
     cases = gen_cases(ck, info)
     # which cases also get the later steps (builds, inference, value propagation)
-    n_steps = ck.pick(420, 2800)
+    n_steps = ck.pick(840 if getattr(ck, "c19_escalated", False) else 420, 2200)
     idx = list(range(len(cases)))
     def steppable(c):
         ds = [d for v in c.get("lists", {}).values() for d in v] + list(c.get("singles", {}).values())
@@ -1430,7 +1953,8 @@ def _run(ck: core.Check, env: Env, info):
             continue
         nops = sum(len(v) for v in case.get("lists", {}).values())
         key = (case["mod"], case["ctor"], repr(case.get("lists")), repr(case.get("singles")), repr(case.get("ints")),
-               repr(case.get("axes")), repr(case.get("scan_attrs")), case.get("rel"), case.get("ambient"), repr(sorted((r, c["beh"], c.get("n")) for r, c in case["cbs"].items())))
+               repr(case.get("axes")), repr(case.get("scan_attrs")), case.get("rel"), case.get("ambient"),
+               case.get("M"), repr(case.get("cond")), case.get("if_cond"), case.get("opcont"), case.get("dupvar"), repr(sorted((r, c["beh"], c.get("n")) for r, c in case["cbs"].items())))
         ck.count(key if (nops >= 1 or not all_good(case)) else None)
         stats["ctor"][case["ctor"]] = stats["ctor"].get(case["ctor"], 0) + 1
         stats["stage"][obs["stage"]] = stats["stage"].get(obs["stage"], 0) + 1
@@ -1444,8 +1968,10 @@ def _run(ck: core.Check, env: Env, info):
         stats["ambient"][ak] = stats["ambient"].get(ak, 0) + 1
         stats["prescribed"] += int(prescription(case) is not None)
         stats["with_steps"] += int(bool(obs["steps"]))
-        for st, en in obs["step_errors"]:
+        for st, en, msg in obs["step_errors"]:
             stats["step_errors"][f"{st}:{en}"] = stats["step_errors"].get(f"{st}:{en}", 0) + 1
+            if len(stats.setdefault("step_error_samples", [])) < 3:
+                stats["step_error_samples"].append({"step": st, "error": f"{en}: {msg}", "case": case})
         for c in case["cbs"].values():
             stats["behaviours"][c["beh"]] = stats["behaviours"].get(c["beh"], 0) + 1
             if c["beh"] == "hasNonVar":
@@ -1466,6 +1992,10 @@ def _run(ck: core.Check, env: Env, info):
                 mismatches += 1
                 if mismatches <= 3:
                     ck.broken("correspondence", "C19 model-vs-implementation", f"case={case} :: {d}")
+    # ---- nested control flow: callbacks that call control-flow constructors themselves (depth 2-3)
+    nstats = run_nested(ck, env)
+    # ---- the documented-internal entry point itself: subgraph(types, fun)
+    run_direct(ck, env)
     # ---- onnxruntime: bodies that use their arguments
     n_ort = 0
     for mod in env.mods:
@@ -1519,6 +2049,28 @@ def replay(ck: core.Check, doc) -> bool:
     env = Env()
     key = doc.get("key")
     known = {f["key"] for f in core.load_findings() if f["property"] == "C19" and f.get("status") == "known"}
+    if case.get("kind") == "direct":
+        hit = False
+        obs = run_direct_case(env, case["case"])
+        for k, what in judge_direct(case["case"], obs):
+            mine = (k == key) if key else (k not in known)
+            print(("* " if mine else "  ") + f"{k}: {what}")
+            hit = hit or mine
+        return hit
+    if case.get("kind") == "nested":
+        import sys
+
+        from harness import lib_c19nest as nest
+
+        P = sys.modules[__name__]
+        hit = False
+        for _rep in range(2):
+            obs = nest.run_program(env, case["prog"])
+            for k, what in nest.judge(P, case["prog"], obs):
+                mine = (k == key) if key else (k not in known)
+                print(("* " if mine else "  ") + f"{k}: {what}")
+                hit = hit or mine
+        return hit
     if case.get("kind") == "ort":
         r = run_ort_prog(env, case["mod"], case["prog"], case["seed"])
         if r is not None:
